@@ -73,8 +73,9 @@ class Module:
         imps = canon.normalise_imports(relpath, self.tree)
         consts = imps + canon.inline_new_constants(relpath, self.tree)
         self.idioms = canon.normalise_idioms(self.tree)
+        unpassed = canon.default_unpassed_params(relpath, self.tree)
         self.canon, self.canon_refused = canon.canonicalise(relpath, self.tree)
-        self.canon = consts + list(self.canon)
+        self.canon = consts + unpassed + list(self.canon)
         self.renames = alpha.normalise(relpath, self.tree)
         more = canon.inline_new_locals(relpath, self.tree)
         if more:
@@ -139,6 +140,7 @@ class Program:
         # named constants the reference tree does not have, per module (so that `from m import CONST` resolves too)
         from . import canon as _canon
         _canon.EXTERNAL_CONSTS.clear()
+        _canon.CALL_FACTS.clear()
         for dp, dn, fn in os.walk(root):
             dn[:] = sorted(d for d in dn if d != "__pycache__")
             for f in sorted(fn):
@@ -150,7 +152,9 @@ class Program:
                         modname = modname[:-9]
                     try:
                         with open(full, encoding="utf-8") as fh:
-                            _canon.collect_new_constants(rel, modname, ast.parse(fh.read()))
+                            _t = ast.parse(fh.read())
+                            _canon.collect_new_constants(rel, modname, _t)
+                            _canon.collect_call_facts(_t)
                     except SyntaxError:
                         pass
         for dp, dn, fn in os.walk(root):
